@@ -229,6 +229,28 @@ def _halo_one(case, FP=None):
                 worst = max(worst, e)
                 if not e <= tol:
                     v.append({"sub": "tower-shift-halo", "sig": "tower-shift-halo", "msg": "halo=%r: moving the tower from cell (%d,%d) by (%d,%d) cells does not translate the footprint (dev %.2e); config %s" % (case["halo"], mj, mi, tj, ti, e, core.canon(case))})
+    if nx % 2 == 0 and ny % 2 == 0:
+        # dispersion re-centring under a halo, every on-node tower (its offset from the domain centre is a whole number of
+        # cells): the output is the field TRANSLATED ON THE PERIODIC PADDED DOMAIN and then cropped - what moves in over the
+        # window edge comes from the halo, not from the opposite edge of the window
+        nxe, nye, px, py = sl.padded_size(nx, ny, dom, case["halo"])
+        if px or py:
+            q = np.random.default_rng(606).random((ny, nx)) + np.linspace(0.0, 2.0, nx)[None, :]
+            _, cp, fp_ = S0(np.pad(q, ((py, py), (px, px))), z, prof, (nxe * dx, nye * dy), levels, modes=modes, halo=0.0, precision="double")
+            cnt[0] += 1
+            Ppad = np.stack([np.asarray(cp, dtype=float), np.asarray(fp_, dtype=float)])
+            sc = max(np.abs(Ppad).max(), 1e-300)
+            for (mj, mi) in cells:
+                if (mj, mi) == (0, 0):
+                    continue
+                R = S(q, meas_pt=_tower((mj, mi), dx, dy))
+                want = np.roll(Ppad, (-(mj - ny // 2), -(mi - nx // 2)), axis=(-2, -1))[..., py:py + ny, px:px + nx]
+                e = np.abs(R - want).max() / sc
+                worst = max(worst, e)
+                if not e <= tol:
+                    v.append({"sub": "recentre-halo", "sig": "recentre-halo", "msg": "halo=%r: dispersion output re-centred on tower cell (%d,%d) differs from the padded periodic field translated by (%d,%d) cells and cropped by %.2e of the field maximum; config %s"
+                              % (case["halo"], mj, mi, mj - ny // 2, mi - nx // 2, e, core.canon(case))})
+                    break
     return {"v": v[:6], "nt": True, "n": cnt[0], "obs": {"worst_rel_err": worst, "towers": len(cells)}}
 
 
